@@ -399,6 +399,17 @@ func (r *run) giveTx(nd *node, once bool) bool {
 // ---------------------------------------------------------------- phases
 
 func (r *run) deliverable() []int {
+	// payloads for heights the destination's ledger has already decided are dead letters (the
+	// extensible pool turns them away): forget them instead of spending scheduler steps on them
+	live := r.net[:0]
+	for _, fl := range r.net {
+		if fl.m.h <= r.cl.nodes[fl.to].bc.BlockHeight() {
+			r.o.Count("deliver:dead-letter")
+			continue
+		}
+		live = append(live, fl)
+	}
+	r.net = live
 	var idx []int
 	for i, fl := range r.net {
 		if r.silent[fl.to] || r.silent[fl.m.from] {
@@ -497,7 +508,7 @@ func (r *run) heights() (lo, hi uint32) {
 // to deliver does the earliest timer fire. Blocks must keep coming.
 func (r *run) fair(blocks int) {
 	r.silent = map[int]bool{}
-	budgetPerBlock := 40 * r.cl.n
+	budgetPerBlock := 100 * r.cl.n
 	_, start := r.heights()
 	target := start + uint32(blocks)
 	fires, total := 0, 0
